@@ -681,16 +681,8 @@ func (in *esInterp) exec(w []string) string {
 		case st == 200:
 			res = "ok"
 		case st == 400:
-			var m esSolution
-			json.Unmarshal([]byte(resp), &m)
-			switch {
-			case strings.Contains(m.Message, "wasn't produced from current scenario"):
-				res = "rejected:notScenario"
-			case strings.Contains(m.Message, "Table management action cell") || strings.Contains(m.Message, "misses mandatory") || strings.Contains(m.Message, "misses the mandatory"):
-				res = "rejected:invalid"
-			default:
-				res = "rejected:csv"
-			}
+			// why a summary is refused is said in the message text only, whose wording is nobody's contract
+			res = "rejected"
 		default:
 			res = fmt.Sprintf("status:%d", st)
 		}
@@ -1542,7 +1534,7 @@ func suiteEngineSummaries(c *Ctx) {
 		}
 		text, err := in.realRun(rc)
 		if err != nil {
-			if limitSpec != "nolimit" && strings.Contains(err.Error(), "Attempt limit reached while seeking a solution near configured decision variable limit") {
+			if limitSpec != "nolimit" && isGiveUp(err.Error()) {
 				// the explorer itself refused to start from this limit (its randomised limit seeking used up its attempts):
 				// no summary was produced, nothing for the property to say
 				c.Stat("real run: BOUNDARY limited scenario not started by the explorer (attempt limit)")
